@@ -76,7 +76,10 @@ fn injections(rng: &mut Rng, w: &mut World, d: &mut Driver) -> Vec<Inj> {
         v.push(Inj { op: Op::Init { hash: crate::hist::bh((0xfeed_1000u64 + u) as u64), ts: 9, height: rng.range(0, d.height as u64) }, kind: "initialise-existing-height", must_reject: true });
         if ntx == 0 {
             v.push(Inj { op: Op::Init { hash: crate::hist::bh((0xfeed_2000u64 + u) as u64), ts: 9, height: d.next_height() + rng.range(1, 5) }, kind: "initialise-not-next-height", must_reject: true });
-            v.push(Inj { op: Op::Init { hash: crate::hist::bh((0xfeed_3000u64 + u) as u64), ts: 9, height: d.next_height() }, kind: "initialise-again", must_reject: true });
+            // a second initialise is out of protocol - as long as the first one is still part of the chain
+            // (a clearCaches before it was committed takes it away again)
+            let initialised = d.chain.iter().flatten().any(|o| matches!(o, Op::Init { .. }));
+            v.push(Inj { op: Op::Init { hash: crate::hist::bh((0xfeed_3000u64 + u) as u64), ts: 9, height: d.next_height() }, kind: "initialise-again", must_reject: initialised });
             v.push(Inj { op: Op::Reorg { n: d.height as u64 + 1 }, kind: "reorg-above-height", must_reject: true });
         }
     }
@@ -170,7 +173,7 @@ fn run_case(ctx: &WorkerCtx, rep: &mut WorkerReport, case_seed: u64, blocks: u64
         if rng.chance(1, 2) {
             inject!();
             // what a rejected call wrote to disk only shows once the uncommitted part is dropped
-            if d.ntx == 0 && d.committed >= 0 && rng.chance(1, 4) {
+            if d.ntx == 0 && d.committed >= w.base as i64 && rng.chance(1, 4) {
                 d.exec(if rng.chance(1, 2) { Op::Clear } else { Op::Reopen });
                 sync!();
                 steps.push(Step::ObsBoundary);
@@ -247,7 +250,7 @@ fn run_case(ctx: &WorkerCtx, rep: &mut WorkerReport, case_seed: u64, blocks: u64
         }
     }
     // epilogue: drop everything uncommitted on both; a rejected call must not have made anything durable
-    if rep.violations.is_empty() && dd.ntx == 0 && cc.ntx == 0 && dd.committed >= 0 {
+    if rep.violations.is_empty() && dd.ntx == 0 && cc.ntx == 0 && dd.committed >= w.base as i64 {
         let op = if rng.chance(1, 2) { Op::Clear } else { Op::Reopen };
         let (rd, rc) = (dd.exec(op.clone()), cc.exec(op.clone()));
         if rd.is_ok() && rc.is_ok() {
